@@ -22,6 +22,10 @@
 //! +07:17) differs from the offset of every string it parses, so a parser that took the process zone
 //! instead of the string's offset cannot pass by coincidence.
 //!
+//! History and zones with rules (`zreplay`, `zrecord`): see the section "local zones with a rule" below - one
+//! process per *sequence* of conversions under a POSIX daylight-saving TZ rule, so that state a conversion
+//! leaves behind in the process (and an offset that changes between calls) is exercised.
+//!
 //! `replay --in cases --out recs`   cases come from TLC (MC_Dates), strings written by the spec are in `lits`.
 //! `record --seed S --n N --out recs`  seeded random cases over the whole domain + the repository's literals.
 use lopdf::Object;
@@ -237,10 +241,10 @@ fn worker(phase: &str) {
             serde_json::to_writer(&mut w, &rec).unwrap();
             w.write_all(b"\n").unwrap();
         };
-        if phase == "fmt" {
-            fmt_case(&c, &mut put);
-        } else {
-            parse_case(&c, &mut put);
+        match phase {
+            "fmt" => fmt_case(&c, &mut put),
+            "seq" => seq_case(&c, &mut put),
+            _ => parse_case(&c, &mut put),
         }
     }
     w.flush().unwrap();
@@ -491,14 +495,186 @@ fn record(args: &[String]) {
     out.finish();
 }
 
+// ---------------------------------------------------------------- local zones with a rule, history
+// One *sequence* = one process: `{run, tz, rule, steps: [{day, sod[, off]}]}`.  The child is started with
+// TZ = a POSIX daylight-saving rule (no tz database needed) and converts, step by step in the same process,
+// the instant as a chrono DateTime<Local> (offset decided by chrono from the rule), as a jiff Zoned in the
+// same POSIX zone (offset decided by jiff) and as a time OffsetDateTime (offset handed over explicitly: the
+// step's `off` when the spec supplied it, else the one chrono reported).  Record per call:
+//   {"ev":"zfmt","run","step","tz","rule","b","day","sod","loff": offset (minutes) of the value handed to
+//    lopdf, "st": ok|na|env|panic, "s":[bytes]}
+// The judge computes the rule's offset for the instant itself; a value whose offset differs from it (the
+// backend's own zone arithmetic, or TZ not taken) is not judged.
+
+fn zfmt_one(b: &str, secs: i64, tz: &str, explicit: Option<i64>) -> Result<(i64, Vec<u8>), Fail> {
+    match b {
+        "chrono_local" => {
+            use chrono::{DateTime, Local, Utc};
+            let utc = DateTime::<Utc>::from_timestamp(secs, 0).ok_or_else(|| Fail::Na("chrono: instant out of range".into()))?;
+            let dt: DateTime<Local> = utc.with_timezone(&Local);
+            let lo = chrono::Offset::fix(dt.offset()).local_minus_utc();
+            if lo % 60 != 0 {
+                return Err(Fail::Env(format!("Local offset {lo}s is not whole minutes")));
+            }
+            Ok((i64::from(lo / 60), obj_bytes(Object::from(dt))))
+        }
+        "jiff_zoned" => {
+            let ts = jiff::Timestamp::from_second(secs).map_err(|e| Fail::Na(format!("jiff: {e}")))?;
+            let zone = jiff::tz::TimeZone::posix(tz).map_err(|e| Fail::Na(format!("jiff: {e}")))?;
+            let z = ts.to_zoned(zone);
+            let lo = z.offset().seconds();
+            if lo % 60 != 0 {
+                return Err(Fail::Env(format!("zone offset {lo}s is not whole minutes")));
+            }
+            Ok((i64::from(lo / 60), obj_bytes(Object::from(z))))
+        }
+        "time_odt" => {
+            let off = explicit.ok_or_else(|| Fail::Na("no offset to hand over".into()))?;
+            let t = time::OffsetDateTime::from_unix_timestamp(secs).map_err(|e| Fail::Na(format!("time: {e}")))?;
+            let o = time::UtcOffset::from_whole_seconds((off * 60) as i32).map_err(|e| Fail::Na(format!("time: {e}")))?;
+            let t = t.checked_to_offset(o).ok_or_else(|| Fail::Na("time: local date-time out of range".into()))?;
+            Ok((off, obj_bytes(Object::from(t))))
+        }
+        _ => unreachable!(),
+    }
+}
+
+const SEQ_BACKENDS: [&str; 3] = ["chrono_local", "jiff_zoned", "time_odt"];
+
+fn seq_case(c: &Value, out: &mut dyn FnMut(Value)) {
+    let tz = c["tz"].as_str().unwrap().to_string();
+    for (j, st) in c["steps"].as_array().unwrap().iter().enumerate() {
+        let (day, sod) = (st["day"].as_i64().unwrap(), st["sod"].as_i64().unwrap());
+        let secs = unix(day, sod);
+        let mut handed: Option<i64> = st["off"].as_i64();
+        for b in SEQ_BACKENDS {
+            let mut rec = json!({"ev": "zfmt", "run": c["run"], "step": j + 1, "tz": tz, "rule": c["rule"], "b": b,
+                                 "day": day, "sod": sod, "loff": 0, "s": []});
+            match guarded(|| zfmt_one(b, secs, &tz, handed)) {
+                Ok(Ok((lo, s))) => {
+                    rec["st"] = json!("ok");
+                    rec["loff"] = json!(lo);
+                    rec["s"] = bytes_json(&s);
+                    if b == "chrono_local" && handed.is_none() {
+                        handed = Some(lo);
+                    }
+                }
+                Ok(Err(Fail::Na(m))) => {
+                    rec["st"] = json!("na");
+                    rec["msg"] = json!(m);
+                }
+                Ok(Err(Fail::Env(m))) => {
+                    rec["st"] = json!("env");
+                    rec["msg"] = json!(m);
+                }
+                Err(p) => {
+                    rec["st"] = json!("panic");
+                    rec["msg"] = json!(p);
+                }
+            }
+            out(rec);
+        }
+    }
+}
+
+/// one child process per sequence (its history is the process' history), a few at a time
+fn run_seqs(seqs: &[Value]) -> Vec<Value> {
+    let mut out = Vec::new();
+    for chunk in seqs.chunks(8) {
+        let handles: Vec<_> = chunk
+            .iter()
+            .map(|q| {
+                let line = serde_json::to_string(q).unwrap();
+                let tz = q["tz"].as_str().unwrap().to_string();
+                std::thread::spawn(move || run_child("seq", &tz, &[line]))
+            })
+            .collect();
+        for (h, q) in handles.into_iter().zip(chunk.iter()) {
+            let (recs, ok, status) = h.join().expect("join");
+            let want = q["steps"].as_array().unwrap().len() * SEQ_BACKENDS.len();
+            let got = recs.len();
+            out.extend(recs);
+            if !ok || got < want {
+                out.push(json!({"ev": "crash", "run": q["run"], "phase": "seq", "tz": q["tz"], "status": status, "answered": got}));
+            }
+        }
+    }
+    out
+}
+
+/// POSIX TZ string of a rule record [std, dst (minutes east), sm.sw.sd/st, em.ew.ed/et (seconds of the day)]
+fn rule_tz(r: &Value) -> String {
+    let g = |k: &str| r[k].as_i64().unwrap();
+    let po = |east: i64| {
+        let a = east.abs();
+        format!("{}{}:{:02}", if east > 0 { "-" } else { "" }, a / 60, a % 60)
+    };
+    let hms = |t: i64| format!("{}:{:02}:{:02}", t / 3600, t / 60 % 60, t % 60);
+    if g("std") == g("dst") {
+        format!("XST{}", po(g("std")))
+    } else {
+        format!("XST{}XDT{},M{}.{}.{}/{},M{}.{}.{}/{}", po(g("std")), po(g("dst")), g("sm"), g("sw"), g("sd"), hms(g("st")),
+                g("em"), g("ew"), g("ed"), hms(g("et")))
+    }
+}
+
+fn zreplay(args: &[String]) {
+    let seqs = read_ndjson(&arg(args, "--in").unwrap());
+    let mut out = NdjsonOut::create(&arg(args, "--out").unwrap());
+    for r in run_seqs(&seqs) {
+        out.put(&r);
+    }
+    out.finish();
+}
+
+/// seeded sequences: zones with rules (both hemispheres, half-hour shifts, odd change times) and one fixed zone,
+/// 2..6 instants of 1970..2100, half of them in the months in which clocks change
+fn zrecord(args: &[String]) {
+    let seed = arg_u64(args, "--seed", 1);
+    let n = arg_u64(args, "--n", 100) as usize;
+    let mut rng = Rng::new(seed.wrapping_mul(0x2345_6789).wrapping_add(1818));
+    let zones: [[i64; 10]; 8] = [
+        [60, 120, 3, 5, 0, 7200, 10, 5, 0, 10800],
+        [-300, -240, 3, 2, 0, 7200, 11, 1, 0, 7200],
+        [600, 660, 10, 1, 0, 7200, 4, 1, 0, 10800],
+        [630, 660, 10, 1, 0, 7200, 4, 1, 0, 7200],
+        [-210, -150, 3, 2, 0, 60, 11, 1, 0, 60],
+        [765, 825, 9, 5, 0, 9900, 4, 1, 0, 13500],
+        [0, 60, 3, 5, 0, 3600, 10, 5, 0, 7200],
+        [345, 345, 3, 1, 0, 0, 10, 1, 0, 0],
+    ];
+    let mut seqs = Vec::new();
+    for run in 0..n {
+        let z = zones[run % zones.len()];
+        let rule = json!({"std": z[0], "dst": z[1], "sm": z[2], "sw": z[3], "sd": z[4], "st": z[5],
+                          "em": z[6], "ew": z[7], "ed": z[8], "et": z[9]});
+        let len = rng.range(2, 6);
+        let mut steps = Vec::new();
+        for _ in 0..len {
+            let y = rng.range(1970, 2099);
+            let m = if rng.chance(1, 2) { *rng.pick(&[z[2], z[6]]) } else { rng.range(1, 12) };
+            let d = rng.range(1, dim(y, m));
+            steps.push(json!({"day": day_of(y, m, d), "sod": rng.range(0, 86_399)}));
+        }
+        seqs.push(json!({"run": run, "tz": rule_tz(&rule), "rule": rule, "steps": steps}));
+    }
+    let mut out = NdjsonOut::create(&arg(args, "--out").unwrap());
+    for r in run_seqs(&seqs) {
+        out.put(&r);
+    }
+    out.finish();
+}
+
 fn main() {
     let args: Vec<String> = std::env::args().collect();
     match args.get(1).map(|s| s.as_str()) {
         Some("worker") => worker(args.get(2).map(|s| s.as_str()).unwrap_or("fmt")),
         Some("replay") => replay(&args),
         Some("record") => record(&args),
+        Some("zreplay") => zreplay(&args),
+        Some("zrecord") => zrecord(&args),
         _ => {
-            eprintln!("usage: c18 replay --in F --out F | record --seed S --n N --out F");
+            eprintln!("usage: c18 replay|zreplay --in F --out F | record|zrecord --seed S --n N --out F");
             std::process::exit(2);
         }
     }
